@@ -33,7 +33,7 @@ MInit ==
   /\ mx = mx0 /\ sq = sq0 /\ ob = ob0
   /\ gh = [gh0 EXCEPT !.qmx[M1] = Q_M, !.qcv[C1] = Q_C1, !.qcv[C2] = Q_C2, !.qbr[B1] = Q_B, !.qjc[J1] = Q_J]
   /\ upc = [t \in Tag |-> [k |-> 0, i |-> 0]]
-  /\ env = [cnt |-> 0, word |-> 0, gate |-> 0, item |-> 0, held |-> [t \in Tag |-> {}]]
+  /\ env = [cnt |-> 0, word |-> 0, gate |-> 0, item |-> 0, held |-> [t \in Tag |-> {}], tix |-> 0]
 
 NextTag == CHOOSE t \in Tag : tg[t].hs = "none" /\ \A u \in Tag : tg[u].hs = "none" => t <= u
 CanCreate == \E t \in Tag : tg[t].hs = "none"
@@ -115,10 +115,29 @@ Keys(w, t, tag) ==
           \/ \E k \in env.held[tag] : UKeyDeleteCall(w, tag, k)
   ELSE UBodyEnd(w, tag, 1000 + tag, 0) /\ Same
 
+\* sleeping and timed waits against a virtual clock (env.tix, advanced by Tick):
+\* tag 1 sleeps for REQ ticks, then calls nanosleep with a malformed duration; tag 2 holds mutex M1 across a
+\* yield; tag 3 tries timedlock(M1) with a deadline DL ticks ahead
+REQ == 1  DL == 1
+Timed(w, t, tag) ==
+  CASE tag = 1 ->
+         CASE upc[tag].i = 0 -> UNanosleepCall(w, tag, 0, REQ) /\ upc' = [upc EXCEPT ![tag] = [k |-> env.tix, i |-> 1]] /\ UNCHANGED env
+           [] upc[tag].i = 1 -> UNanosleepCall(w, tag, 0, -1) /\ Adv(tag, upc[tag].k, 1) /\ UNCHANGED env
+           [] OTHER -> UBodyEnd(w, tag, 1000 + tag, 0) /\ Same
+    [] tag = 2 ->
+         CASE upc[tag].i = 0 -> ULockCall(w, tag, M1) /\ Adv(tag, 0, 1) /\ UNCHANGED env
+           [] upc[tag].i = 1 -> UYieldCall(w, tag, 2) /\ Adv(tag, 0, 1) /\ UNCHANGED env
+           [] upc[tag].i = 2 -> UUnlockCall(w, tag, M1) /\ Adv(tag, 0, 1) /\ UNCHANGED env
+           [] OTHER -> UBodyEnd(w, tag, 1000 + tag, 0) /\ Same
+    [] OTHER ->
+         CASE upc[tag].i = 0 -> UTimedLockCall(w, tag, M1, 0, env.tix + DL) /\ upc' = [upc EXCEPT ![tag] = [k |-> env.tix + DL, i |-> 1]] /\ UNCHANGED env
+           [] upc[tag].i = 1 /\ gh.mown[M1] = t -> UUnlockCall(w, tag, M1) /\ Adv(tag, upc[tag].k, 1) /\ UNCHANGED env
+           [] OTHER -> UBodyEnd(w, tag, 1000 + tag, 0) /\ Same
+
 Scenario(w, t, tag) ==
   CASE SCN = "mutex" -> Mutex(w, t, tag) [] SCN = "cond" -> Cond(w, t, tag) [] SCN = "gate" -> Gate(w, t, tag)
     [] SCN = "barrier" -> Barrier(w, t, tag) [] SCN = "jc" -> Jc(w, t, tag) [] SCN = "uncond" -> Uncond(w, t, tag)
-    [] SCN = "once" -> Once(w, t, tag) [] SCN = "felock" -> Felock(w, t, tag) [] SCN = "keys" -> Keys(w, t, tag)
+    [] SCN = "once" -> Once(w, t, tag) [] SCN = "felock" -> Felock(w, t, tag) [] SCN = "keys" -> Keys(w, t, tag) [] SCN = "timed" -> Timed(w, t, tag)
 
 UserStep(w) ==
   \E t \in D : At(w, t, "user") /\
@@ -190,6 +209,13 @@ OnceLib(w) ==
 FelockLib(w) ==
      \/ \E st, want \in {0, 1} : FeChk(w, 1, st, want) \/ FeMark(w, 1, st)
      \/ \E t \in Tag, st \in {0, 1} : UFeWaitLockRet(w, t, 1, st) \/ UFeMarkRet(w, t, 1, st)
+TimedLib(w) ==
+     \/ Clock(w, 0, env.tix)
+     \/ \E t \in Tag, rc \in {0, 22} : UNanosleepRet(w, t, rc)
+     \/ \E t \in Tag, rc \in {0, 110} : UTimedLockRet(w, t, M1, rc)
+\* the virtual clock advances on its own
+TMAX == 3
+Tick == env.tix < TMAX /\ env' = [env EXCEPT !.tix = @ + 1] /\ UNCHANGED <<corevars, upc>>
 KeysLib(w) ==
      \/ KaLock(w) \/ KaUnlock(w)
      \/ \E h \in -1..(NKeys - 1) : KaLd(w, h)
@@ -208,11 +234,12 @@ LibStep(w) ==
      \/ SCN = "once" /\ OnceLib(w)
      \/ SCN = "felock" /\ FelockLib(w)
      \/ SCN = "keys" /\ KeysLib(w)
+     \/ SCN = "timed" /\ (TimedLib(w) \/ MutexLib(w))
 
 Finished == \E w \in W : cur[w] # 0 /\ th[cur[w]].tag = 0 /\ th[cur[w]].pc.k = "done"
 AllReaped == \A t \in Tag : t # 0 /\ tg[t].hs # "none" => tg[t].reaped = 1
 Terminated == Finished /\ AllReaped /\ UNCHANGED mvars
-MNext == (\E w \in W : UserStep(w) \/ LibStep(w) \/ KeyRet(w)) \/ Terminated
+MNext == (\E w \in W : UserStep(w) \/ LibStep(w) \/ KeyRet(w)) \/ Terminated \/ (SCN = "timed" /\ Tick)
 MSpec == MInit /\ [][MNext]_mvars
 MFairSpec == MSpec /\ \A w \in W : WF_mvars(UserStep(w) \/ LibStep(w) \/ KeyRet(w))
 Termination == <>Finished
@@ -230,5 +257,9 @@ Unlockers(m) == Cardinality({t \in D : t # 0 /\ \E w \in W : Runs(w, t) /\ th[t]
               + Cardinality({w \in W : InCb(w) /\ cb[w].p.k \in {"mu2", "wo0"} /\ (IF cb[w].p.k = "mu2" THEN cb[w].p.x ELSE cb[w].p.y) = m})
 SeatsAccount == mx[M1] \div 2 = Len(sq[Q_M]) + Reserved(M1) - Unlockers(M1)
 \* a thread dequeued by an unlocker is not runnable anywhere while that unlocker still holds the lock bit
+\* C20 (design): the sleeper is back at user level only after more than REQ ticks have passed since the call;
+\* a timedlock that reported a timeout did so after its deadline
+SleepNoEarly == \A t \in D : (th[t].st # "none" /\ th[t].tag = 1 /\ th[t].pc.k = "user" /\ upc[1].i = 1) => env.tix > upc[1].k + REQ
+TimeoutNotEarly == \A t \in D : (th[t].st # "none" /\ th[t].tag = 3 /\ th[t].pc.k = "tl9" /\ th[t].pc.y = 110) => env.tix > upc[3].k
 MutualExclusion == Cardinality({t \in D : t # 0 /\ gh.mown[M1] = t}) <= 1
 =============================================================================
